@@ -32,6 +32,7 @@ claimed = {
  "C07": ("server: bodies just below, at and above MaxRequestBodySize (1 B to 70 KB, 2 MiB in the thorough tier, default 4 MiB) fixed-length and chunked (tiny chunks, one chunk, mixed) with HeaderReceived overrides, heads around ReadBufferSize, compression bombs and many-part multipart bodies fed to the *WithLimit helpers; rejection status/close, handler never sees an oversize body, bytes taken from the simulated socket before rejection bounded by head + limit + buffers; client: MaxResponseBodySize against CL/chunked/close-delimited responses", "6/C07"),
  "C08": ("Request/Response.ReadLimitBody, RequestHeader/ResponseHeader.Read over a bufio.Reader of size 16-4096 on a faulty reader (1-byte to unlimited chunks, (0,nil) reads, EOF/unexpected EOF/timeout/custom error at any offset) fed with the C01 grammar, generated responses and 0-5 byte-level mutations, always followed by a sentinel; value parsers run on accepted requests and on raw bytes; no panic, read budget (termination), sentinel intact (no over-read) against the RFC 9112 reference", "6/C08"),
  "C35": ("upload histories on sequentially used connections: 1-3 files of 0 B-100 KB (17 MiB in a thorough minority) and fields, StreamRequestBody and DisablePreParseMultipartForm on/off, fixed-length or chunked, handler parsing or ignoring the form, client aborts at 10/50/90 %, TimeoutError (excepted), keep-alive follow-ups; per-run private TMPDIR census at every later handler entry and after the server closed the connection; parsed form vs sent form; WriteMultipartForm round trip through mime/multipart", "6/C35"),
+ "C37": ("the scenarios of C03 C04 C10 C11 C12 C13 C15 C16 C17 C18 C21 C22 C25 C38 C40 C41 re-run on the -race build of the harness: scheduler hand-offs, simulated network, pools and recorders are hidden from the detector (runtime.RaceDisable around them) while every real lock, atomic and channel operation of fasthttp still reaches it, so a report is a function of the tape and replays; only reports whose two racing accesses are both made by fasthttp or its dependencies count", "6/C37"),
  "C33": ("PipeConns stream equality and Close semantics, InmemoryListener Dial/Accept/Close pairing, under seeded interleavings of writers, readers, deadlines and closers at every channel/select/mutex operation", "6/C33"),
 }
 na = {
